@@ -136,6 +136,9 @@ class BehavioralRTLIRToVVisitorL2( BehavioralRTLIRToVVisitorL1 ):
     loop_var = s._loopvar_name( s.visit( node.var ) )
     start    = s.visit( node.start )
     end      = s.visit( node.end )
+    if isinstance( node.end, bir.IfExp ):
+      # `v < c ? a : b` would be read as `( v < c ) ? a : b`
+      end = f'( {end} )'
 
     begin    = ' begin' if len( node.body ) > 1 else ''
 
